@@ -51,7 +51,7 @@ func signWith(kp *tlsgen.CertKeyPair, h *comm.Handshake) {
 }
 
 func unitC16(e common.Env, p *common.Part) {
-	p.Rule = "real listeners on 127.0.0.1 with identities registered in two domains; hostile connections interleaved with honest ones; field-level cases through the library's own client with a hostile AuthFunc (domain: other registered / unregistered / empty / boundary shifted into the identity; binding: zero / random / truncated / recorded on another connection; identity: unregistered, another node's certificate, PEM with leading garbage, non-PEM, RSA, Ed25519, P-384; signature: absent / random / by another registered key / over another binding / garbled), encoding-level cases through a raw TLS client (every truncation length of the encoded handshake [every 4th in quick], length-prefix lies, trailing bytes, whole-handshake replay); every connection then sends a frame with a unique marker; oracle: marker <-> connection <-> entitled identity table, judged after a fence of honest markers and a grace period; distinct key = (field, mutation, identity); non-trivial when the handshake differs from a valid one for that connection"
+	p.Rule = "real listeners on 127.0.0.1 with identities registered in two domains; hostile connections interleaved with honest ones; field-level cases through the library's own client with a hostile AuthFunc (domain: other registered / unregistered / empty / boundary shifted into the identity / every registered identity, one of them registered without a domain, claiming every domain with its own valid signature; binding: zero / random / truncated / recorded on another connection; identity: unregistered, another node's certificate, PEM with leading garbage, non-PEM, RSA, Ed25519, P-384; signature: absent / random / by another registered key / over another binding / garbled), encoding-level cases through a raw TLS client (every truncation length of the encoded handshake [every 4th in quick], length-prefix lies, trailing bytes, whole-handshake replay); every connection then sends a frame with a unique marker; oracle: marker <-> connection <-> entitled identity table, judged after a fence of honest markers and a grace period; distinct key = (field, mutation, identity); non-trivial when the handshake differs from a valid one for that connection"
 	p.Assumptions = append(p.Assumptions, "timestamp staleness is not in the property's list and is not judged; 'no attributed message' is bounded by a fence (honest markers sent afterwards have arrived) plus a grace period, so a slow machine can only cause a missed detection, never an alarm")
 	if !e.Mine(0) {
 		return
@@ -83,6 +83,9 @@ func unitC16(e common.Env, p *common.Part) {
 	env.p2id[lookupKey("dom", fk.p384Cert)] = 9
 	env.p2id[lookupKey("dom", fk.rsaIssued)] = 10
 	env.p2id[lookupKey("dom", fk.edIssued)] = 11
+	// an identity registered WITHOUT a domain (node 12 in the empty domain) and nowhere else
+	nodom, _ := env.ca.NewClientCertKeyPair()
+	env.p2id[lookupKey("", nodom.Cert)] = 12
 	unreg, _ := env.ca.NewClientCertKeyPair() // a valid certificate of the same CA that is not registered
 	n2, n3, n5 := env.nodes[2], env.nodes[3], env.nodes[5]
 
@@ -97,6 +100,22 @@ func unitC16(e common.Env, p *common.Part) {
 	add(c16case{Field: "domain", Mutation: "unregistered domain", Domain: "nowhere", Auth: honestAuth(n2.ident, "nowhere"), Entitled: none})
 	add(c16case{Field: "domain", Mutation: "empty domain", Domain: "", Auth: honestAuth(n2.ident, ""), Entitled: none})
 	add(c16case{Field: "domain", Mutation: "signed under dom, claimed other", Domain: "other", Auth: honestAuth(n2.ident, "dom"), Entitled: none})
+	// every registered identity claims every domain, correctly signed by its owner: entitled exactly where it is registered
+	for _, who := range []struct {
+		name string
+		kp   *tlsgen.CertKeyPair
+		id   uint16
+		dom  string
+	}{{"node 2", n2.ident, 2, "dom"}, {"node 3", n3.ident, 3, "other"}, {"the identity registered without a domain", nodom, 12, ""}} {
+		for _, claim := range []string{"dom", "other", "", "nowhere"} {
+			who, claim := who, claim
+			c := c16case{Field: "domain", Mutation: fmt.Sprintf("%s claims domain %q with its own valid signature", who.name, claim), Domain: claim, Auth: honestAuth(who.kp, claim), Entitled: none}
+			if claim == who.dom {
+				c.Field, c.Entitled, c.EntDom = "none", who.id, who.dom
+			}
+			add(c)
+		}
+	}
 	// boundary shifted into the identity: domain "do", identity "m"+PEM (same concatenation, PEM decoding skips leading garbage)
 	add(c16case{Field: "domain", Mutation: "boundary shifted into the identity (domain 'do', identity 'm'+PEM)", Domain: "do", Auth: func(b []byte) comm.Handshake {
 		h := comm.Handshake{Domain: "do", TLSBinding: b, Identity: append([]byte("m"), n2.ident.Cert...), Timestamp: time.Now().Unix()}
